@@ -69,7 +69,7 @@ func Run(r *core.Run) {
 	var kcs []keyCase
 	for n := 2; n <= maxN; n++ {
 		for t := 1; t < n; t++ {
-			pat := []string{"small", "near-q", "large", "byte-boundary"}[(n+t)%4]
+			pat := []string{"small", "near-q", "large", "byte-boundary", "above-q"}[(n+2*t)%5]
 			kcs = append(kcs, keyCase{fmt.Sprintf("generated(n=%d,t=%d,ids=%s)", n, t, pat), scen.EdKey(pat, n, t, r.Seed), t})
 		}
 	}
